@@ -18,7 +18,7 @@ PROPS = {
              "thorough": [("MsgQueue_mid", "MsgQueue_mid.cfg", MQ), ("MsgQueue_thorough", "MsgQueue_thorough.cfg", MQ)]},
         dev=[("MsgQueue_dev_F2", "MsgQueue_dev_F2.cfg", MQ, "NoLostWakeup")],
         family="C07", drivers=["d1"], mech=("queue", "T_MsgQueue.tla", "T_MsgQueue.cfg"),
-        passes={"quick": [("mix", 8, None), ("demote", 600, 40)], "thorough": [("mix", 60, None), ("delay", 2, 400), ("demote", 1000, 60)]},
+        passes={"quick": [("mix", 8, None), ("demote", 600, 40)], "thorough": [("mix", 40, None), ("delay", 2, 300), ("demote", 1000, 60)]},
         nontrivial=r'"ev":"RecvRet".*"res":"req"',
         rule="scenarios: receiver combinations x request timing (family C07); distinct = distinct observable traces (events incl. virtual time); non-trivial = at least one request was delivered by a receive call",
     ),
@@ -27,7 +27,9 @@ PROPS = {
              "thorough": [("MsgQueue_mid", "MsgQueue_mid.cfg", MQ), ("MsgQueue_thorough", "MsgQueue_thorough.cfg", MQ)]},
         dev=[("MsgQueue_dev_F2", "MsgQueue_dev_F2.cfg", MQ, "NoLostWakeup")],
         family="C17", drivers=["d1"], mech=("queue", "T_MsgQueue.tla", "T_MsgQueue.cfg"),
-        passes={"quick": [("mix", 8, None), ("demote", 600, 40)], "thorough": [("mix", 60, None), ("delay", 2, 400), ("demote", 1000, 60)]},
+        # (the family has grown to some 550 scenarios, many with long timed receives: 60 mixed runs each were 6.5 GB of
+        #  traces and an hour of validation; the thorough tier stays at what finishes in well under an hour)
+        passes={"quick": [("mix", 8, None), ("demote", 600, 40)], "thorough": [("mix", 24, None), ("delay", 2, 200), ("demote", 800, 40)]},
         nontrivial=r'"ev":"Unblock"',
         rule="scenarios: receiver combinations x unblock instants x request instants (family C17); distinct = distinct observable traces; non-trivial = at least one unblock() call before teardown or a timed receive returning",
     ),
